@@ -100,19 +100,33 @@ def parseItems : Nat → List Tok → Res (List Item × List Tok)
         | .comma :: r => (parseItems f r).bind (fun y => .ok (x.1 :: y.1, y.2))
         | r => .ok ([x.1], r))
 
+def startsLambda : List Tok → Bool
+  | .sym .lambda :: _ => true
+  | _ => false
+
+def startsLsb : List Tok → Bool
+  | .sym .lsb :: _ => true
+  | _ => false
+
+def startsLp : List Tok → Bool
+  | .lp :: _ => true
+  | _ => false
+
+/-- identifier directly followed by `|` `.` `@` -/
+def startsIdLink : List Tok → Bool
+  | .id _ :: r => isLinkTok r
+  | _ => false
+
 /-- expression() inside an argument list -/
 def parseArg (f : Nat) (ts : List Tok) : Res (Arg × List Tok) :=
-  match ts with
-  | .sym .lambda :: r => (primaryExpr f r).bind (fun x => .ok (.lambda x.1, x.2))
-  | .sym .lsb :: r =>
-    (parseItems f r).bind (fun x =>
+  if startsLambda ts then (primaryExpr f (ts.drop 1)).bind (fun x => .ok (.lambda x.1, x.2))
+  else if startsLsb ts then
+    (parseItems f (ts.drop 1)).bind (fun x =>
       match x.2 with
       | .sym .rsb :: r' => .ok (.list x.1, r')
       | _ => .err)
-  | .id _ :: .sym .pipe :: _ => .na "chain-argument"
-  | .id _ :: .sym .dot :: _ => .na "chain-argument"
-  | .id _ :: .sym .at :: _ => .na "chain-argument"
-  | _ =>
+  else if startsIdLink ts then .na "chain-argument"
+  else
     match primaryExpr f ts with
     | .ok (e, r) => if isCallExpr e && isLinkTok r then .na "chain-argument" else .ok (.expr e, r)
     | .err => if startsCall ts then .na "global-function-arguments" else .err
@@ -133,33 +147,29 @@ def parseLinks : Nat → List Tok → Res (List Link × List Tok)
   | 0, _ => .na "fuel"
   | f + 1, ts =>
     match ts with
-    | .sym s :: .id n :: .lp :: r =>
+    | .sym s :: r =>
       match linkOpOf s with
+      | none => .ok ([], ts)
       | some op =>
-        (parseArgs f r).bind (fun x =>
-          match x.2 with
-          | .rp :: r' => (parseLinks f r').bind (fun y => .ok ({ op := op, name := n, args := some x.1 } :: y.1, y.2))
-          | _ => .err)
-      | none => .ok ([], ts)
-    | .sym s :: .id n :: r =>
-      match linkOpOf s with
-      | some .pipe => .err     -- function(): expect '('
-      | some op => (parseLinks f r).bind (fun y => .ok ({ op := op, name := n, args := none } :: y.1, y.2))
-      | none => .ok ([], ts)
-    | .sym s :: _ =>
-      match linkOpOf s with
-      | some _ => .err        -- expect identifier
-      | none => .ok ([], ts)
+        match r with
+        | .id n :: r2 =>
+          if startsLp r2 then
+            (parseArgs f (r2.drop 1)).bind (fun x =>
+              match x.2 with
+              | .rp :: r' => (parseLinks f r').bind (fun y => .ok ({ op := op, name := n, args := some x.1 } :: y.1, y.2))
+              | _ => .err)
+          else if op = .pipe then .err     -- function(): expect '('
+          else (parseLinks f r2).bind (fun y => .ok ({ op := op, name := n, args := none } :: y.1, y.2))
+        | _ => .err        -- expect identifier
     | _ => .ok ([], ts)
 
 /-- expression() at statement level -/
 def parseRhs (f : Nat) (ts : List Tok) : Res (Rhs × List Tok) :=
-  match ts with
-  | .id s :: .sym x :: r =>
-    match linkOpOf x with
-    | some _ => (parseLinks f (.sym x :: r)).bind (fun y => .ok (.chain (.id s) y.1, y.2))
-    | none => (parseArg f ts).bind (fun y => .ok (.arg y.1, y.2))
-  | .id _ :: .lp :: _ =>
+  if startsIdLink ts then
+    match ts with
+    | .id s :: r => (parseLinks f r).bind (fun y => .ok (.chain (.id s) y.1, y.2))
+    | _ => .err
+  else if startsCall ts then
     -- function(GlobalFunc), then a chain or precedence(term, 0)
     match primary f ts with
     | .ok (h, r) =>
@@ -167,22 +177,34 @@ def parseRhs (f : Nat) (ts : List Tok) : Res (Rhs × List Tok) :=
       else (outer f h 0 r).bind (fun y => .ok (.arg (.expr y.1), y.2))
     | .err => .na "global-function-arguments"
     | .na w => .na w
-  | _ => (parseArg f ts).bind (fun y => .ok (.arg y.1, y.2))
+  else (parseArg f ts).bind (fun y => .ok (.arg y.1, y.2))
+
+def startsVar : List Tok → Bool
+  | .sym .var :: _ => true
+  | _ => false
+
+def startsDbrp : List Tok → Bool
+  | .sym .dbrp :: _ => true
+  | _ => false
 
 def parseStmt (f : Nat) (ts : List Tok) : Res (Stmt × List Tok) :=
-  match ts with
-  | .sym .var :: .id x :: .sym .asgn :: r => (parseRhs f r).bind (fun y => .ok (.decl x y.1, y.2))
-  | .sym .var :: .id x :: .id t :: r => .ok (.typeDecl x t, r)
-  | .sym .var :: _ => .err
-  | .sym .dbrp :: .lit (.ref a) :: .sym .dot :: .lit (.ref b) :: r => .ok (.dbrp a b, r)
-  | .sym .dbrp :: _ => .err
-  | _ => (parseRhs f ts).bind (fun y => .ok (.expr y.1, y.2))
+  if startsVar ts then
+    match ts with
+    | .sym .var :: .id x :: .sym .asgn :: r => (parseRhs f r).bind (fun y => .ok (.decl x y.1, y.2))
+    | .sym .var :: .id x :: .id t :: r => .ok (.typeDecl x t, r)
+    | _ => .err
+  else if startsDbrp ts then
+    match ts with
+    | .sym .dbrp :: .lit (.ref a) :: .sym .dot :: .lit (.ref b) :: r => .ok (.dbrp a b, r)
+    | _ => .err
+  else (parseRhs f ts).bind (fun y => .ok (.expr y.1, y.2))
 
 /-- program() -/
 def parseStmts : Nat → List Tok → Res Program
   | 0, _ => .na "fuel"
-  | _ + 1, [] => .ok []
-  | f + 1, ts => (parseStmt f ts).bind (fun x => (parseStmts f x.2).bind (fun y => .ok (x.1 :: y)))
+  | f + 1, ts =>
+    if ts.isEmpty then .ok [] else
+    (parseStmt f ts).bind (fun x => (parseStmts f x.2).bind (fun y => .ok (x.1 :: y)))
 
 def parseProgramToks (ts : List Tok) : Res Program := parseStmts (2 * ts.length + 6) ts
 
